@@ -36,7 +36,9 @@ class ImmutableDict(Mapping, Generic[KT, VT]):
         elif isinstance(data, ImmutableDict):
             self._data = data._data
         else:
-            self._data = {k: v for k, v in data}
+            # same for an iterable of pairs: the mutable containers among the
+            # values are not shared with the caller either.
+            self._data = copy.deepcopy({k: v for k, v in data})
 
     @property
     def data(self):
